@@ -1,8 +1,9 @@
 ---------------------------- MODULE MC_DbDigest ----------------------------
 (* C12: two nodes; the second node's disk is the first one's or one atomic change away    *)
 (* from it (layout, other files, decoy directory, entry path, one file changed / removed  *)
-(* / added); each node computes digests for any beacons with any cache usage, in any      *)
-(* order, up to MaxSteps computations.                                                    *)
+(* / added); each node computes Merkle trees for any beacons and digests for any ranges,   *)
+(* with any cache usage, in any order, up to MaxSteps computations (the range computations *)
+(* warm the cache with non-prefix subsets of the files).                                   *)
 EXTENDS DbDigest
 
 CONSTANTS n1, n2, MaxSteps
@@ -30,7 +31,9 @@ Init ==
     /\ steps = 0
 
 Next == /\ steps < MaxSteps
-        /\ \E node \in Nodes, b \in Nums, c \in BOOLEAN : Compute(node, b, c)
+        /\ \E node \in Nodes, c \in BOOLEAN :
+              \/ \E b \in Nums : Compute(node, b, c)
+              \/ \E lo \in Nums : \E hi \in lo..(MaxNum + 1) : ComputeRange(node, lo, hi, c)
 
 Spec == Init /\ [][Next]_vars
 
